@@ -6,7 +6,7 @@
 //! ingredient equal those obtained by reading the ingredient on its own; unsigned => no manifest, no failure.
 //!
 //! Mutants caught (tools/mutant_run.sh H <diff> C39 quick):
-//!   /verif/mutants/C39-ingredient-drops-failure-codes.diff
+//!   /verif/mutants/C39-ingredient-drops-failure-codes.diff -> `state-differs ...` / `failure-codes-differ ...` for tampered ingredients
 
 use c2pa::{Builder, BuilderIntent, DigitalSourceType};
 use kit::{assets, defs::manifest_boxes, par, sdk, Run};
@@ -288,8 +288,7 @@ fn judge(run: &Run, c: &Case, seeds: &[Seed]) {
                 if k.starts_with("harness") {
                     kit::ev::machinery(format!("C39 {}: {k}: {w}", c.id()));
                 }
-                STATS.get_or_init(Default::default).add(&format!("{k} state={} rel={} mode={}", c.state, c.rel, c.mode), &format!("{}: {w}", c.id()));
-                run.violation(format!("{k} state={} rel={} mode={} seed={}", c.state, c.rel, c.mode, c.seed), format!("{}: {w}", c.id()), c.to_json());
+                STATS.get_or_init(Default::default).violation(run, 25, format!("{k} state={} rel={} mode={} seed={}", c.state, c.rel, c.mode, c.seed), format!("{}: {w}", c.id()), c.to_json());
             }
         }
     }
@@ -322,8 +321,9 @@ pub fn run(run: &Run, replay: Option<&Value>) {
     // determinism
     {
         let c = Case { seed: "png".into(), state: "tampered".into(), rel: "componentOf".into(), mode: "chain2".into(), parent: "jpeg".into() };
-        let x = run_case(&c, &seeds).map(|r| format!("{:?}", r));
-        let y = run_case(&c, &seeds).map(|r| format!("{:?}", r));
+        let keys = |r: Result<(String, Vec<(String, String)>), String>| r.map(|(c, f)| format!("{c} {:?}", f.into_iter().map(|x| x.0).collect::<Vec<_>>()));
+        let x = keys(run_case(&c, &seeds));
+        let y = keys(run_case(&c, &seeds));
         run.evals(2);
         if x != y {
             kit::ev::machinery(format!("C39: the same case judged differently twice: {x:?} / {y:?}"));
@@ -333,6 +333,6 @@ pub fn run(run: &Run, replay: Option<&Value>) {
         run.sample(json!({"seed": s.name, "signed_len": s.signed.len(), "tampered_byte": s.tamper_pos, "alone_signed": format!("{:?}", read_alone(s.mime, &s.signed)), "alone_tampered": format!("{:?}", read_alone(s.mime, &s.tampered))}));
     }
     par::for_each(&cases, |c| judge(run, c, &seeds));
-    STATS.get_or_init(Default::default).dump("C39");
+    STATS.get_or_init(Default::default).finish(run, "C39");
     run.sample(json!({"case": cases[cases.len() / 2].to_json()}));
 }
